@@ -13,7 +13,7 @@ func init() {
 	registerProperty(&PropertyInfo{
 		ID:    "C07",
 		Title: "Every query returns exactly the documents its meaning selects",
-		Rules: []string{"C07.R1", "C07.R2", "C07.R3", "C07.R4", "C07.R5", "C07.R6", "C07.R7", "C04.R7", "C08.R6", "C06.R5"},
+		Rules: []string{"C07.R1", "C07.R2", "C07.R3", "C07.R4", "C07.R5", "C07.R6", "C07.R7", "C07.R8", "C07.R9", "C04.R7", "C08.R6", "C06.R5"},
 		Decides: "two structural conditions every correct searcher stack needs (narrow claim): after a DocumentMatch was handed back to the pool, no path uses the same access path or value again (dereference, argument, return, store) before it is overwritten - comparisons with nil or another pointer are not uses; the index-level postings iterators that span several segments return every non-nil posting with its number globalised by the snapshot's offset of the segment it came from, on the Next path and on the Advance path alike; the offsets themselves are cumulative full segment sizes (C06.R5). no loop runs over a cursor list that was emptied on every path to it (pending children are not dropped); a regexp's literal prefix is read only from case-sensitive literal nodes. a searcher wrapping one child reports exhaustion only when the child is exhausted; a heap element changed in place is re-sifted (C08.R6).",
 		NotCovered: "equality of the result set with the query's meaning: conjunction/disjunction/boolean/phrase iterator logic, term expansion, geo arithmetic; aliases of a recycled match held under a different access path.",
 	})
